@@ -276,7 +276,7 @@ func chanGoverned(c *Ctx, v ssa.Value, f *ssa.Function) (bool, string) {
 			}
 		}
 	}
-	d := c.P.Def(v)
+	d := c.P.DefX(v)
 	switch x := d.(type) {
 	case *ssa.Call:
 		if cal := x.Common().StaticCallee(); cal != nil && (cal.String() == "time.After" || cal.String() == "(*time.Timer).C") {
@@ -289,14 +289,24 @@ func chanGoverned(c *Ctx, v ssa.Value, f *ssa.Function) (bool, string) {
 	case *ssa.MakeChan:
 		// closed in a deferred call of some goroutine of the enclosing function
 		root := x.Parent()
-		for _, g := range withClosures(root) {
+		for root.Parent() != nil {
+			root = root.Parent()
+		}
+		// the producer may have been split off into a function of the same package that receives the channel as a parameter
+		var producers []*ssa.Function
+		for _, g := range ModReach(c.P, root) {
+			if core.FuncPkg(g) == core.FuncPkg(root) {
+				producers = append(producers, g)
+			}
+		}
+		for _, g := range producers {
 			for _, b := range g.Blocks {
 				for _, in := range b.Instrs {
 					call, ok := in.(*ssa.Call)
 					if !ok {
 						continue
 					}
-					if bi, ok := call.Common().Value.(*ssa.Builtin); ok && bi.Name() == "close" && c.P.Def(call.Common().Args[0]) == ssa.Value(x) {
+					if bi, ok := call.Common().Value.(*ssa.Builtin); ok && bi.Name() == "close" && c.P.DefX(call.Common().Args[0]) == ssa.Value(x) {
 						// the closing closure is invoked from a defer (directly or through sync.Once.Do)
 						if deferredIn(c, g) {
 							return true, "closed by a deferred call of the producer goroutine (" + core.FuncName(g) + ")"
@@ -311,10 +321,27 @@ func chanGoverned(c *Ctx, v ssa.Value, f *ssa.Function) (bool, string) {
 }
 
 // deferredIn: closure g is passed to a deferred call (e.g. defer once.Do(g)) or is itself deferred in its parent.
-func deferredIn(c *Ctx, g *ssa.Function) bool {
+func deferredIn(c *Ctx, g *ssa.Function) bool { return deferredInDepth(c, g, 0) }
+
+func deferredInDepth(c *Ctx, g *ssa.Function, depth int) bool {
 	par := g.Parent()
-	if par == nil {
+	if par == nil || depth > 3 {
 		return false
+	}
+	// g is called from (or handed to a call such as once.Do inside) a closure that is itself deferred: defer signal(); signal = func() { once.Do(g) }
+	for _, b := range par.Blocks {
+		for _, in := range b.Instrs {
+			call, ok := in.(*ssa.Call)
+			if !ok {
+				continue
+			}
+			vals := append([]ssa.Value{call.Common().Value}, call.Common().Args...)
+			for _, v := range vals {
+				if mc, ok := v.(*ssa.MakeClosure); ok && mc.Fn == ssa.Value(g) && deferredInDepth(c, par, depth+1) {
+					return true
+				}
+			}
+		}
 	}
 	for _, b := range par.Blocks {
 		for _, in := range b.Instrs {
